@@ -248,7 +248,11 @@ theorem runOK_squeeze {sg : Int × Int} {a1 a2 a3 a4 : List Arg} {nx : List Tok}
     obtain ⟨_, hm⟩ := h
     cases a2 <;> cases a3 <;> cases a4 <;> first | (simpa using hm) | (simp at hm)
   · rw [if_neg hneg] at h ⊢
-    exact h
+    by_cases hp : (decide (0 ≤ sg.1) && decide (0 ≤ sg.2)) = true
+    · rw [if_pos hp] at h ⊢
+      simp only [Bool.and_eq_true] at h ⊢
+      exact ⟨⟨⟨⟨⟨h.1.1.1.1.1, trivial⟩, h.1.1.1.2⟩, h.1.1.2⟩, h.1.2⟩, h.2⟩
+    · rw [if_neg hp] at h; cases h
 
 theorem nameArg_squeeze_ok (n : NameArg) (h : n.ok = true) : n.squeeze.ok = true := by
   simp only [NameArg.ok, NameArg.squeeze, Bool.and_eq_true, spOK] at h ⊢
